@@ -271,7 +271,7 @@ def replay_ubsan(case):
     exe = os.path.join(build.workdir(), "ub_main")
     if not os.path.exists(exe):
         r = subprocess.run(["clang++-14", "-std=c++17", "-O1", "-fsanitize=signed-integer-overflow", "-fno-sanitize-recover=all",
-                            "-I/repo/include", "-I" + build.REPO + "/include", src, "-o", exe], capture_output=True, text=True)
+                            "-I" + build.REPO + "/include", src, "-o", exe], capture_output=True, text=True)
         if r.returncode != 0: return None
     r = subprocess.run([exe] + [str(a) for a in args], capture_output=True, text=True)
     if r.returncode != 0 and "runtime error" in r.stderr:
